@@ -371,7 +371,13 @@ pub struct Prog {
 
 impl Prog {
     pub fn line(&self) -> String {
-        let mut s = format!("prog {} {} {} {} ", self.nvars, self.nq, self.take, if self.raw { "raw" } else { "-" });
+        self.line_f(0)
+    }
+    /// the case line with the model's step fuel (0 = the driver's default)
+    pub fn line_f(&self, fuel: u64) -> String {
+        let flags = if self.raw { "raw" } else { "-" };
+        let flags = if fuel > 0 { format!("{}:{}", flags, fuel) } else { flags.to_string() };
+        let mut s = format!("prog {} {} {} {} ", self.nvars, self.nq, self.take, flags);
         for g in &self.body {
             g.toks(&mut s);
         }
@@ -387,7 +393,7 @@ impl Prog {
         while it.len() > 0 {
             body.push(PG::parse(&mut it));
         }
-        Prog { nvars, nq, take, body, raw: toks[4] == "raw" }
+        Prog { nvars, nq, take, body, raw: toks[4].split(':').next() == Some("raw") }
     }
 }
 
@@ -506,6 +512,22 @@ pub enum RunOut {
 
 pub const BUDGET: u64 = 20_000;
 
+thread_local! {
+    /// engine ticks used by the last `run_prog`/`run_raw` on this thread
+    pub static LAST_TICKS: std::cell::Cell<u64> = std::cell::Cell::new(0);
+}
+
+/// The step fuel the model gets for the case just run: a model step costs the implementation at least
+/// one tick, so a finished run needs no more model steps than ticks (generous slack); a run that
+/// exhausted the budget is compared on a bounded prefix only.
+pub fn model_fuel(out: &RunOut) -> u64 {
+    let t = LAST_TICKS.with(|c| c.get());
+    match out {
+        RunOut::Budget(_) => 1500,
+        _ => 4 * t + 200,
+    }
+}
+
 /// Runs the body goal directly on a `Solver` and reports the states it produces, in order.
 pub fn run_raw(p: &Prog) -> RunOut {
     use proto_vulcan::solver::Solver;
@@ -538,6 +560,7 @@ pub fn run_raw(p: &Prog) -> RunOut {
         }
         more
     });
+    LAST_TICKS.with(|c| c.set(proto_vulcan::verif::steps()));
     proto_vulcan::verif::set_budget(u64::MAX);
     match r {
         Ok(more) => RunOut::Answers(answers, more),
@@ -584,6 +607,7 @@ pub fn run_prog(p: &Prog) -> RunOut {
         }
         more
     });
+    LAST_TICKS.with(|c| c.set(proto_vulcan::verif::steps()));
     proto_vulcan::verif::set_budget(u64::MAX);
     match r {
         Ok(more) => RunOut::Answers(answers, more),
